@@ -5,6 +5,7 @@ their establishment by `secLoad` / `segLoad` and preservation by the (lazy) data
 and the lifting over the loader's loops.
 -/
 import ElfioVerif.Model.Load
+import ElfioVerif.Lemmas.LoadTie
 namespace ElfioVerif
 open Gen
 
@@ -162,11 +163,11 @@ theorem toInt_nonneg_toNat (x : BitVec 64) (h : 0 ≤ x.toInt) : x.toInt.toNat =
 
 @[simp] theorem isolatedRead_data (st : IStream) (off n : BitVec 64) :
     (isolatedRead st off n).1.data = st.data := by
-  unfold isolatedRead; dsimp only; split <;> simp
+  rw [LoadTie.isolatedRead_hand]; dsimp only; split <;> simp
 
 @[simp] theorem isolatedRead_kind (st : IStream) (off n : BitVec 64) :
     (isolatedRead st off n).1.kind = st.kind := by
-  unfold isolatedRead; dsimp only; split <;> simp
+  rw [LoadTie.isolatedRead_hand]; dsimp only; split <;> simp
 
 /-- a complete isolated read delivers exactly the `n` bytes of the stream at `off` -/
 theorem isolatedRead_complete (st : IStream) (off n : BitVec 64)
@@ -177,7 +178,7 @@ theorem isolatedRead_complete (st : IStream) (off n : BitVec 64)
     rcases Nat.eq_zero_or_pos n.toNat with h0 | h0
     · exact absurd (BitVec.eq_of_toNat_eq (by simpa using h0)) hn
     · exact h0
-  unfold isolatedRead at h ⊢
+  rw [LoadTie.isolatedRead_hand] at h ⊢
   dsimp only at h ⊢
   by_cases hneg : n.toInt < 0
   · simp [hneg] at h
@@ -317,6 +318,8 @@ theorem secLoadData_eq (c : Cls) (tr : List Trans) (ls : LoadSt) (b : SecBuf) :
                { b with data := some (alloc 1), dataSize := 0, isLoaded := true }, true)
        else (ls, { b with isLoaded := b.data.isSome || isNullOrNobitsTy b.stype },
              b.data.isSome || isNullOrNobitsTy b.stype)) := by
+  -- the model's conditions are the generated ones; `LoadTie.secLoadData_hand` is their hand form
+  rw [LoadTie.secLoadData_hand]
   cases c <;> rfl
 
 theorem StOk.push {tr img kind} {ls : LoadSt} (h : StOk tr img kind ls) (st : IStream) (n : Nat)
@@ -519,7 +522,10 @@ theorem secLoad_eq (c : Cls) (enc : Enc) (tr : List Trans) (ls : LoadSt) (hdrOff
           ({ ls with st := (hdrRead tr ls.st hdrOff (shdrSize c)).1 },
            { secHdrOnly c enc tr (hdrRead tr ls.st hdrOff (shdrSize c)).1
                 (hdrRead tr ls.st hdrOff (shdrSize c)).2 (streamSizeOf tr ls.st).2 isLazy idx
-             with addrSet := true }) := rfl
+             with addrSet := true }) := by
+  -- the two conditions of `section_impl::load` are the generated ones (Gen/SitesLoad.lean)
+  rw [LoadTie.secLoad_hand]
+  rfl
 
 /-- the stream-size clause of `LoadedSec` right after the header read -/
 theorem secLoad_ss (tr : List Trans) (st : IStream) (hdrOff : Int) (n : Nat) (img : Bytes)
@@ -750,8 +756,9 @@ theorem segLoad_eq (c : Cls) (enc : Enc) (tr : List Trans) (ls : LoadSt) (hdrOff
       if (!(isLazy || (segHdr c enc tr ls.st hdrOff isLazy).isLoaded)) = true then
         segLoadData c tr { ls with st := (hdrRead tr ls.st hdrOff (phdrSize c)).1 }
           (segHdr c enc tr ls.st hdrOff isLazy)
-      else ({ ls with st := (hdrRead tr ls.st hdrOff (phdrSize c)).1 }, segHdr c enc tr ls.st hdrOff isLazy, true) :=
-  rfl
+      else ({ ls with st := (hdrRead tr ls.st hdrOff (phdrSize c)).1 }, segHdr c enc tr ls.st hdrOff isLazy, true) := by
+  -- `if ( !( is_lazy || is_loaded ) )` is the generated condition of either instantiation
+  cases c <;> rfl
 
 /-- a program header of which nothing was read is the `PT_NULL` one -/
 theorem decodePhdr_zero_stype (c : Cls) (enc : Enc) (g : Seg) :
@@ -842,7 +849,7 @@ theorem LoadedSec.bufOk {tr img} {b : SecBuf} (h : LoadedSec tr b img) : BufOk b
 theorem getString_total' (b : SecBuf) (hb : BufOk b) (idx : BitVec 32) :
     ∃ r, getString b idx = .ok r ∧
       ∀ s, r = some s → ∃ d, b.data = some d ∧ CStrAt d b.size.toNat idx.toNat s := by
-  unfold getString
+  rw [LoadTie.getString_hand]
   cases hd : b.data with
   | none => exact ⟨none, rfl, fun s hs => by cases hs⟩
   | some d =>
@@ -993,7 +1000,10 @@ theorem load_eq (o : Obj) (st : IStream) (isLazy : Bool) :
          let o1 : Obj := { o0 with cls := c, enc := enc, hdr := some hdr }
          if r2.1.gcount != ehdrSize c then .ok (failRes o1 r2.1) else
          loadAfterHdr o1 c enc hdr isLazy r2.1) := by
-  unfold load
+  -- the model's gate conditions, loop conditions and class dispatch are the generated ones;
+  -- `LoadTie.load_hand` is their hand form
+  rw [LoadTie.load_hand]
+  unfold LoadTie.loadHand
   rfl
 
 /-- everything the loader guarantees about its result -/
@@ -1129,7 +1139,7 @@ theorem isolatedRead_inrange (st : IStream) (off n : BitVec 64) (h0 : 0 ≤ off.
   have hoff := toInt_nonneg_toNat off h0
   have hs : st.clear.seekg off.toInt = { st.clear with eof := false, pos := off.toNat } := by
     rw [IStream.seekg_ok _ _ rfl h0 (by rw [hoff]; simp only [IStream.clear_data]; omega), hoff]
-  unfold isolatedRead
+  rw [LoadTie.isolatedRead_hand]
   dsimp only
   rw [if_neg (by omega), hs, IStream.read_ok _ _ rfl (by simpa [IStream.clear] using hr)]
   simp [IStream.clear]
@@ -1159,7 +1169,7 @@ theorem isolatedRead_complete_nonneg (st : IStream) (off n : BitVec 64)
     rcases Nat.eq_zero_or_pos n.toNat with h0 | h0
     · exact absurd (BitVec.eq_of_toNat_eq (by simpa using h0)) hn
     · exact h0
-  unfold isolatedRead at h
+  rw [LoadTie.isolatedRead_hand] at h
   dsimp only at h
   by_cases hneg : n.toInt < 0
   · simp [hneg] at h
